@@ -66,11 +66,13 @@ HasEpochs(s) == s \in {"AndersonCD", "GroupBCD", "MultiTaskBCD", "PDCD_WS"}
 \* ---- knob domains
 MaxIters == {0, 1, 2, 3, 8, 50}
 MaxEpochs == {1, 2, 5, 6, 7, 11, 12, 13, 17, 18, 19, 25, 200}
-P0s == {"1", "2", "p", "10p"}
+P0s == {"1", "2", "10", "p", "10p"}
 Tols == {"1e-3", "1e-4", "1e-5"}
 Warms == {"none", "zero", "random", "bigsupp", "intercept_only"}
 Weights == {"unit", "random", "zeros"}          \* for weighted penalties: zeros => unpenalised features
-DataKinds == {"tall", "wide", "corr98", "corr98wide"}
+\* "big": n = 60, p = 120, AR(0.9): many working sets of changing composition (p >> p0)
+\* "contrast": every column sums exactly to zero (contrast coding): X^T 1 = 0
+DataKinds == {"tall", "wide", "corr98", "corr98wide", "big", "contrast"}
 AlphaFracs == {"0.5", "0.1", "0.01"}
 
 FocusSolvers == CASE Focus = "C01" -> CertSolvers
@@ -79,6 +81,10 @@ FocusSolvers == CASE Focus = "C01" -> CertSolvers
                   [] OTHER -> Solvers
 FocusPen(P) == CASE Focus = "C04" -> P \cap ConstrPen
                  [] OTHER -> P
+\* C01 is about runs that CLAIM convergence: budgets under which most runs reach their tolerance (the
+\* short budgets around the extrapolation period belong to C03 / C04 / C17)
+FocusIters == IF Focus = "C01" THEN {3, 8, 50} ELSE MaxIters
+FocusEpochs == IF Focus = "C01" THEN {7, 13, 25, 200} ELSE MaxEpochs
 
 VARIABLES stage, sc
 vars == <<stage, sc>>
@@ -106,8 +112,8 @@ PickStrategy == stage = "strategy" /\ \E w \in (IF HasStrategy(sc.solver) /\ sc.
                                                   ELSE IF sc.penalty = "WeightedL1GroupL2" \/ sc.penalty = "SLOPE" THEN {"fixpoint"} ELSE {"subdiff"}) :
                  Set("strategy", w)
 PickP0 == stage = "p0" /\ \E q \in (IF HasP0(sc.solver) THEN P0s ELSE {"p"}) : Set("p0", q)
-PickIters == stage = "iters" /\ \E n \in MaxIters : Set("max_iter", n)
-PickEpochs == stage = "epochs" /\ \E n \in (IF HasEpochs(sc.solver) THEN MaxEpochs ELSE {200}) : Set("max_epochs", n)
+PickIters == stage = "iters" /\ \E n \in FocusIters : Set("max_iter", n)
+PickEpochs == stage = "epochs" /\ \E n \in (IF HasEpochs(sc.solver) THEN FocusEpochs ELSE {200}) : Set("max_epochs", n)
 PickTol == stage = "tol" /\ \E t \in Tols : Set("tol", t)
 \* a start outside the feasible set is legitimate (e.g. a warm_start refit after shrinking the box)
 PickWarm == stage = "warm" /\ \E w \in ((IF sc.fit_intercept THEN Warms ELSE Warms \ {"intercept_only"})
